@@ -487,6 +487,13 @@ fn plans(prop: &str, tier: &str) -> Vec<Plan> {
                 c.max_len = 5;
             }
             out.push(Plan { name: "c15-static-reduced-deep", cfgs, depth: if q { 5 } else { 7 } });
+            // lag: a Reset reaches the adapter while its view is not full
+            let mut cfgs = single_stage_cfgs("C15", &kinds, 1, 2, &[1, 2], &[Policy::Manual], &fl);
+            for c in &mut cfgs {
+                c.alphabet = Alphabet::Reduced;
+                c.max_len = 6;
+            }
+            out.push(Plan { name: "c15-static-lag", cfgs, depth: if q { 4 } else { 6 } });
         }
         "C20" => {
             let mut kinds = Vec::new();
